@@ -242,10 +242,12 @@ func (e *Eng) evalIdent(name string, env *Env, cur, old *State) *Val {
 			panic("no result here")
 		}
 		return env.result[0]
-	case "result1":
-		return env.result[1]
-	case "result2":
-		return env.result[2]
+	case "result1", "result2", "result3", "result4":
+		i := int(name[6] - '0')
+		if i >= len(env.result) {
+			panic("no " + name + " here")
+		}
+		return env.result[i]
 	case "$now":
 		return &Val{T: e.get(cur, clockRegion, "Int"), Typ: types.Typ[types.Int64], KnownLen: -1}
 	case "$fr":
@@ -645,6 +647,9 @@ func (e *Eng) evalCall(n *ECall, env *Env, cur, old *State) *Val {
 		}
 		as := args()
 		return &Val{T: sx("snoc", as[0].T, as[1].T), Sort: "Trace", KnownLen: -1}
+	case "buflen":
+		a := e.eval(n.Args[0], env, cur, old)
+		return ival(sel(e.get(cur, "BL", "(Array Int Int)"), a.T))
 	case "sliceEq":
 		// same header (same backing array, offset, length)
 		as := args()
